@@ -35,6 +35,10 @@ func serverRunner(l *layout, prog string) (string, bool) {
 
 	settings.SetDefault(defs.SandboxPathSetting, l.setting)
 
+	defer restoreEnv("TMPDIR", "HOME")()
+	os.Setenv("TMPDIR", l.tmpdir)
+	os.Setenv("HOME", l.home)
+
 	serverSeq++
 
 	body, _ := json.Marshal(map[string]any{"code": prog + "\nmain()\n", "session": "6f1c1d5e-3c1b-4b8e-9d53-0a4f4a1e7c26"})
